@@ -779,7 +779,9 @@ def nf_reason(f, stored):
         fs = f["items"]
         subs = [(fs[i] if i < len(fs) else (fs[0] if t == "tuple" and len(fs) == 1 else None), x) for i, x in enumerate(items)]
     elif t == "mapkv":
-        subs = [(f["vf"], x) for x in items]
+        subs = [(f["vf"], x) for x in items] + [(f["kf"], k) for k, _ in stored[1]]
+    elif t in ("allof", "anyof", "oneof"):
+        subs = [(g, stored) for g in f.get("fs") or []]
     for g, x in subs:
         if g is not None:
             r = nf_reason(g, x)
@@ -1872,7 +1874,7 @@ def run(rep, tier):
     # Gen/Tables.v (which mutators exist / are overridden) refined by the classification of the translated method
     # bodies (Gen/WrapBodies.v); Coq computes the same refinement (Check/C03chk.v table_of) and must agree
     tables = WB.strict_tables()
-    nclasses, per_class, nops = (110, 6, 8) if tier == "quick" else (220, 10, 40)
+    nclasses, per_class, nops = (140, 6, 8) if tier == "quick" else (220, 10, 40)
     rep.assumptions += [
         "re.match is an oracle (Section variable), instantiated per case by a table filled from the real re module",
         "the base type's method applied to a plain copy of the wrapper's content (CPython itself) is the oracle for "
